@@ -706,6 +706,10 @@ def goFuncSig (id : String) : Option Sig :=
   else if id == "add3" then some ⟨[.int, .int, .int], none⟩
   else if id == "cat" then some ⟨[.string], some .string⟩
   else if id == "ident" then some ⟨[.any], none⟩
+  else if id == "sum" then some ⟨[], some .int⟩
+  else if id == "stage" then some ⟨[.int, .string], none⟩
+  else if id == "replace" then some ⟨[.string, .string, .string, .int], none⟩
+  else if id == "split" then some ⟨[.string, .string], none⟩
   else none
 
 /-- `Type.AssignableTo(in)` / `ConvertibleTo(in)` + `Convert(in)` for the modelled kinds -/
@@ -739,6 +743,23 @@ def repeatB : Nat → Bytes → Bytes
   | 0, _ => []
   | n + 1, s => s ++ repeatB n s
 
+/-- `strings.Replace(s, old, new, n)` for non-empty `old`; `rem = none` is n < 0 (all) -/
+def replaceGo : Nat → Bytes → Bytes → Bytes → Option Nat → Bytes
+  | 0, s, _, _, _ => s
+  | _ + 1, [], _, _, _ => []
+  | fuel + 1, c :: cs, old, new, rem =>
+    if rem == some 0 then c :: cs
+    else if hasPrefixB (c :: cs) old then new ++ replaceGo fuel ((c :: cs).drop old.length) old new (rem.map (· - 1))
+    else c :: replaceGo fuel cs old new rem
+
+/-- `strings.Split(s, sep)` for non-empty `sep` -/
+def splitGo : Nat → Bytes → Bytes → Bytes → List Bytes
+  | 0, _, _, cur => [cur.reverse]
+  | _ + 1, [], _, cur => [cur.reverse]
+  | fuel + 1, c :: cs, sep, cur =>
+    if hasPrefixB (c :: cs) sep then cur.reverse :: splitGo fuel ((c :: cs).drop sep.length) sep []
+    else splitGo fuel cs sep (c :: cur)
+
 def isAsciiSpace (c : UInt8) : Bool := c == 32 || c == 9 || c == 10 || c == 13 || c == 11 || c == 12
 
 def trimSpaceB (s : Bytes) : Bytes := ((s.dropWhile isAsciiSpace).reverse.dropWhile isAsciiSpace).reverse
@@ -764,6 +785,20 @@ def applyGoFunc (id : String) (args : List Val) : P (Val × List LogE) :=
       | .str s => pure (acc ++ s)
       | _ => crash "unreachable cat arg") a) >>= fun s => pure (.str s, [])
   | "ident", [v] => pure (.iface (Val.indirectInterface v), [])
+  | "stage", [.int id, .str s] => pure (.str (s ++ intToDec id), [.probe id])
+  | "sum", xs =>
+    (xs.foldlM (fun acc v => match v with
+      | .int i => pure (Val.wrapI (acc + i))
+      | _ => crash "unreachable sum arg") (0 : Int)) >>= fun t => pure (.int t, [])
+  | "replace", [.str s, .str old, .str new, .int n] =>
+    if old.isEmpty then (if old == new || n == 0 then pure (.str s, []) else unsupported "replace of the empty string")
+    else if n == 0 || old == new then pure (.str s, [])
+    else pure (.str (replaceGo (s.length + 1) s old new (if n < 0 then none else some n.toNat)), [])
+  | "split", [.str s, .str sep] =>
+    if sep.isEmpty then
+      (if !isAsciiBytes s then unsupported "split into UTF-8 sequences"
+       else pure (.slice (s.map fun c => .str [c]) false false, []))
+    else pure (.slice ((splitGo (s.length + 1) s sep []).map .str) false false, [])
   | _, _ => unsupported ("go func " ++ id)
 where
   /-- `html.EscapeString`: escapes `<>&'"` ( `'`→`&#39;`, `"`→`&#34;` ) -/
@@ -1322,7 +1357,7 @@ def evalCommand (r : Rec) (env : Env) (c : Cmd) : M (Val × Bool) := do
       else
         match c.args with
         | a0 :: _ => errAt a0.loc "command has arguments but is not a function"
-        | [] => crash "index out of range [0] with length 0"
+        | [] => errAt c.base.loc "command is called but is not a function"
   else pure (term, false)
 
 /-- `evalCommandPipeExpression` -/
